@@ -22,12 +22,13 @@ func init() {
 				"dominated by a newScope of the same function (or is a rebinding under `_, ok := m[k]; ok`), and helpers that declare at depth 0 are only called below a push; (C07.ctx) every change of " +
 				"Runtime.context / Runtime.content / the output Writer is preceded by a load into a local and followed on every normal path by a store of that local back (or a deferred restore); " +
 				"(C07.blocks) block tables are only installed into a freshly pushed scope; (C07.order) identifier lookup consults scope chain → Set globals → built-ins in that order; (C07.set) `=` " +
-				"walks the scope chain to the end and fails after it; (C07.alias) no Range method returns a view of ranger state that the next Range call mutates. (C07.set, continued) setValue leaves a scope for its parent only where its presence test for the name is known to have failed. (C07.swallow) every function inside the evaluation, other than executeTry (C13.restore), whose deferred guard recovers a panic and returns normally — isSet — saves, before the guard is installed, every piece of runtime state that some construct puts back only by a plain statement (the set M of C13.restore: scope chain, context, content; computed on every run) and stores it back on every recovered path of the guard; otherwise a failure swallowed by isset below a range, a block or YieldBlock leaves '.', the variables or the block content of the failed construct in place for the rest of the template.",
+				"walks the scope chain to the end and fails after it; (C07.alias) no Range method returns a view of ranger state that the next Range call mutates. (C07.set, continued) setValue leaves a scope for its parent only where its presence test for the name is known to have failed. (C07.swallow) every function inside the evaluation, other than executeTry (C13.restore), whose deferred guard recovers a panic and returns normally — isSet — saves, before the guard is installed, every piece of runtime state that some construct puts back only by a plain statement (the set M of C13.restore: scope chain, context, content; computed on every run) and stores it back on every recovered path of the guard; otherwise a failure swallowed by isset below a range, a block or YieldBlock leaves '.', the variables or the block content of the failed construct in place for the rest of the template. (C07.ctx, continued) a deferred restore of a runtime field is registered before anything that can fail runs with the field already changed (otherwise a failure swallowed by try or isset leaves the field changed). (C07.alias, continued) nor does Range hand out a reflect.Value kept in a ranger field that it overwrites in place (Set…) on every call. (C07.scope swap-deferred) a function inside the evaluation that switches Runtime.scope to another chain (the content closure) switches back by a deferred statement registered before anything that can fail: the lists still open below release their scopes relative to the current chain while a failure unwinds.",
 			NotDecided:  "unwinding by a panic that ends Execute (C10) or a try body (C13); the values stored; shadowing between a caller-supplied VarMap and globals beyond the lookup order; user-defined Rangers.",
 			Assumptions: []string{"AST nodes, Template and Set are immutable during execution (C10.ast, C11.frozen): facts about their fields survive calls"},
 			Trusted:     commonTrusted,
 		},
 		Mutants: []Mutant{
+			{Name: "content closure switches the scope back by a plain statement (original defect)", File: "eval.go", Old: "\t\t\tdefer func() {\n\t\t\t\tst.scope = outscope\n\t\t\t\tst.content = outcontent\n\t\t\t}()\n\n\t\t\tst.scope = myscope\n\t\t\tst.content = mycontent\n\n\t\t\tif expression != nil {\n\t\t\t\tcontext := st.context\n\t\t\t\tst.context = st.evalPrimaryExpressionGroup(expression)\n\t\t\t\tst.executeList(content)\n\t\t\t\tst.context = context\n\t\t\t} else {\n\t\t\t\tst.executeList(content)\n\t\t\t}\n", New: "\t\t\tst.scope = myscope\n\t\t\tst.content = mycontent\n\n\t\t\tif expression != nil {\n\t\t\t\tcontext := st.context\n\t\t\t\tst.context = st.evalPrimaryExpressionGroup(expression)\n\t\t\t\tst.executeList(content)\n\t\t\t\tst.context = context\n\t\t\t} else {\n\t\t\t\tst.executeList(content)\n\t\t\t}\n\t\t\tst.scope = outscope\n\t\t\tst.content = outcontent\n", Rule: "C07.scope"},
 			{Name: "isset swallows a failure without putting the runtime state back (original defect)", File: "eval.go", Old: "\t\t\t// something panicked while evaluating node\n\t\t\tst.scope, st.context, st.content = scope, context, content\n", New: "\t\t\t// something panicked while evaluating node\n\t\t\t_, _, _ = scope, context, content\n", Rule: "C07.swallow"},
 			{Name: "isset puts the scope back but not the context", File: "eval.go", Old: "\t\t\t// something panicked while evaluating node\n\t\t\tst.scope, st.context, st.content = scope, context, content\n", New: "\t\t\t// something panicked while evaluating node\n\t\t\tst.scope, st.content = scope, content\n\t\t\t_ = context\n", Rule: "C07.swallow"},
 			{Name: "equivalent: isset puts the state back whether or not something was recovered", File: "eval.go", Old: "\t\tif r := recover(); r != nil {\n\t\t\t// something panicked while evaluating node\n\t\t\tst.scope, st.context, st.content = scope, context, content\n", New: "\t\tr := recover()\n\t\tst.scope, st.context, st.content = scope, context, content\n\t\tif r != nil {\n\t\t\t// something panicked while evaluating node\n", Rule: "-"},
@@ -112,6 +113,7 @@ func runC07(c *an.Ctx) {
 	fns, poolFns := pairFns(p)
 	c.Expect("C07.scope", "functions taking part in paired operations", len(fns), 10)
 	c07swallow(c)
+	c07scopeSwap(c)
 	results := map[*an.Fn]*pairResult{}
 	nPush, nPop, nDecl, nBlocks, nFieldFns := 0, 0, 0, 0, 0
 	declarers := map[*an.Fn][]token.Pos{}
@@ -295,6 +297,38 @@ func c07order(c *an.Ctx) {
 					st.Set("seq", seq+k)
 				}
 			}
+		},
+		// a table may be read by a function of the module that is called for it (a lookup under the lock with a
+		// deferred unlock is not spliced into the caller): the call counts as the read
+		Call: func(x *an.Explorer, call *ast.CallExpr, st *an.State) {
+			g := p.FnByObj[an.Callee(info, call)]
+			if g == nil || g.Body == nil || g == f {
+				return
+			}
+			ginfo := g.Info()
+			an.InspectBody(g, func(n ast.Node) bool {
+				ix, ok := n.(*ast.IndexExpr)
+				if !ok {
+					return true
+				}
+				k := ""
+				switch p.FieldKey(ginfo, ix.X) {
+				case "scope.variables":
+					k = "S"
+				case "Set.globals":
+					k = "G"
+				}
+				if id, ok := an.Unparen(ix.X).(*ast.Ident); ok && id.Name == "defaultVariables" {
+					k = "D"
+				}
+				if k != "" {
+					seq := st.Get("seq")
+					if !strings.HasSuffix(seq, k) {
+						st.Set("seq", seq+k)
+					}
+				}
+				return true
+			})
 		},
 	}
 	x := p.NewExplorer(f, hooks)
@@ -527,6 +561,54 @@ func c07alias(c *an.Ctx) {
 			}
 			return true
 		})
+		// … nor a reflect.Value kept in a field that Range overwrites in place (v.Set…(…)): every iteration would hand
+		// out the same settable value, and what a template stored from an earlier iteration changes with the next
+		setInPlace := map[string]bool{}
+		isRecvField := func(e ast.Expr) (string, bool) {
+			sel, ok := an.Unparen(e).(*ast.SelectorExpr)
+			if !ok {
+				return "", false
+			}
+			if id, ok := an.Unparen(sel.X).(*ast.Ident); ok && an.ObjOf(info, id) == types.Object(recv) {
+				return sel.Sel.Name, true
+			}
+			return "", false
+		}
+		an.InspectOwn(f, func(n ast.Node) bool {
+			if call, ok := n.(*ast.CallExpr); ok && strings.HasPrefix(an.CalleeName(info, call), "(reflect.Value).Set") {
+				if name, ok := isRecvField(an.Receiver(call)); ok {
+					setInPlace[name] = true
+				}
+			}
+			return true
+		})
+		if len(setInPlace) > 0 && !bad {
+			results := map[types.Object]bool{}
+			for i := 0; i < f.Sig.Results().Len(); i++ {
+				results[f.Sig.Results().At(i)] = true
+			}
+			handedOut := func(e ast.Expr, pos token.Pos) {
+				for _, o := range valueOrigins(f, e, 0) {
+					if name, ok := isRecvField(o); ok && setInPlace[name] && !bad {
+						bad = true
+						c.Bad("C07.alias", f.Name, pos, nil, "%s hands out %s, a reflect.Value it overwrites in place (Set…) on every call: a value the template kept from one iteration (loop variable copied into an outer variable) changes with the next", f.Name, an.Str(o))
+					}
+				}
+			}
+			an.InspectOwn(f, func(n ast.Node) bool {
+				if ret, ok := n.(*ast.ReturnStmt); ok {
+					for _, r := range ret.Results {
+						handedOut(r, r.Pos())
+					}
+				}
+				an.Assigns(n, func(lhs, rhs ast.Expr, _ token.Token) {
+					if id, ok := an.Unparen(lhs).(*ast.Ident); ok && rhs != nil && results[an.ObjOf(info, id)] {
+						handedOut(rhs, rhs.Pos())
+					}
+				})
+				return true
+			})
+		}
 		if !bad {
 			c.OK("C07.alias", f.Name, f.Pos(), "no returned value aliases ranger state that Range mutates (mutated fields: %s)", fmt.Sprint(keys(mutated)))
 		}
